@@ -20,7 +20,7 @@ return an arbitrary `m`.  Here the two events are refined:
   position the thinker was started on, computed from the engine state the previous call left (`x`: what the model of
   the search does not compute itself — cancellation, `sort.Sort`, `math/rand`).
 
-`moveLock` admits one thinker into `GetMove` at a time (`C07.lock_exclusive`), so between `enter k` and `leave k`
+`moveLock` lets one thinker into `GetMove` at a time (`C07.lock_exclusive`), so between `enter k` and `leave k`
 nobody else touches the rule's notes or the engine: running the prefix at `enter` and the search at `leave` is the
 same as spreading them over the interval.
 
